@@ -59,7 +59,7 @@ pub fn s2deep(ctx: &Ctx) {
     for pos in 0..if ctx.tier_thorough { 5 } else { 4 } {
         ops.push(std_op(SUB[ctx.pick("prog-op", SUB.len())], pos));
     }
-    let p = Program { guid: "file-guid".into(), ops, xml_mode: 0, no_finalize: false };
+    let p = Program { guid: "file-guid".into(), ops, ..Default::default() };
     if let Some((_, rb)) = roundtrip(ctx, &p, P) {
         count_section_residues(ctx, &rb);
         if rb.scene.clouds.iter().any(|c| !c.points.is_empty()) {
@@ -90,6 +90,14 @@ pub fn s3(ctx: &Ctx) {
     let n = [cap - 1, cap, cap + 1, 2 * cap - 1, 2 * cap, 2 * cap + 1, 3 * cap + 1][which];
     let p = Program { guid: "g".into(), ops: vec![Op::Cloud(cloud(proto, n, 3))], ..Default::default() };
     ctx.count(format!("natural-cap:{}={}", protos[pi].0, cap));
+    if roundtrip(ctx, &p, P).is_some() {
+        ctx.nontrivial();
+    }
+}
+
+/// tiny clouds of narrow records only (the program space of C12-G6), judged as a round trip
+pub fn tiny(ctx: &Ctx) {
+    let (p, _) = crate::c12::gen_g6(ctx);
     if roundtrip(ctx, &p, P).is_some() {
         ctx.nontrivial();
     }
